@@ -322,6 +322,31 @@ func (s *SUT) PlayHazard(i int) bool {
 			}
 		}
 	}
+	// second form (finding pool-stale-reader-kept-after-play): the block's last writer of K is a
+	// transaction the pool already knows, and another pool transaction outside the block read or
+	// wrote K at another version: processUnconfirmTxs exempts it from eviction
+	inBlock := map[string]bool{}
+	lastWriter := map[string]string{} // key -> version written by the block
+	writerInPool := map[string]bool{}
+	for _, x := range blk.Transactions {
+		inBlock[string(x.Txid)] = true
+		for off, out := range x.TxOutputsExt {
+			k := out.Bucket + "/" + string(out.Key)
+			lastWriter[k] = refmodel.Version(x.Txid, int32(off))
+			writerInPool[k] = inPool[string(x.Txid)]
+		}
+	}
+	for _, x := range pool {
+		if inBlock[string(x.Txid)] {
+			continue
+		}
+		for _, in := range x.TxInputsExt {
+			k := in.Bucket + "/" + string(in.Key)
+			if v, ok := lastWriter[k]; ok && writerInPool[k] && v != refmodel.Version(in.RefTxid, in.RefOffset) {
+				return true
+			}
+		}
+	}
 	return false
 }
 
@@ -502,6 +527,10 @@ func permute(a []int, k int, f func([]int) bool) bool {
 	return false
 }
 
+// CanonSelect: include SelectUtxos answers in the canon comparison (switched off by checks
+// that leave temporary selection locks on the SUT).
+var CanonSelect = true
+
 // CanonAuditor compares every observable with the reference.
 func CanonAuditor(s *SUT, op Op) []Problem {
 	e, refused, err := s.Expected()
@@ -523,8 +552,11 @@ func CanonAuditor(s *SUT, op Op) []Problem {
 	for _, x := range pool {
 		ids = append(ids, x.Txid)
 	}
-	got := sn.ObserveOpt(s.N, sn.ObsOpt{Txids: ids})
-	want := sn.ObserveOpt(e, sn.ObsOpt{Txids: ids})
+	// SelectUtxos(addr, whole unfrozen balance) is part of the vector: "unspent outputs" as a client
+	// obtains them (generated frozen heights are far from every ledger height, so the answer does not
+	// depend on how tall the SUT's ledger is)
+	got := sn.ObserveOpt(s.N, sn.ObsOpt{Txids: ids, Select: CanonSelect})
+	want := sn.ObserveOpt(e, sn.ObsOpt{Txids: ids, Select: CanonSelect})
 	if d := got.Diff(want); len(d) > 0 {
 		ps = append(ps, Problem{Sig: "canon|" + diffClass(d), Detail: fmt.Sprintf("SUT vs fresh node at block %d: %s", tip, strings.Join(head(d, 8), " ;; "))})
 	}
